@@ -40,6 +40,9 @@ type Check struct {
 
 var registry = map[string]*Check{}
 
+// ExtraCommands: further sub-commands of the harness binary registered by checks.
+var ExtraCommands = map[string]func(args []string) int{}
+
 func Register(c *Check) { registry[c.ID] = c }
 
 func Lookup(id string) *Check { return registry[id] }
